@@ -444,6 +444,32 @@ where
 }
 
 /// Cache key for uniquely identifying a request.
+/// Verification hooks, compiled only by the Kani compiler (`cfg(kani)`): thin
+/// public wrappers around private functions so that harnesses outside the
+/// crate can reach them.
+#[cfg(kani)]
+impl<Endpoint: Ord + Clone> BlockHandler<Endpoint> {
+    pub fn verif_negotiate_block_size(
+        request_block: Option<&BlockValue>,
+        message_size: usize,
+        total_payload_size: usize,
+        max_total_message_size: usize,
+    ) -> Result<Option<BlockValue>, HandlingError> {
+        Self::negotiate_block_size_if_necessary(
+            request_block,
+            message_size,
+            total_payload_size,
+            max_total_message_size,
+        )
+    }
+
+    pub fn verif_compute_message_size(
+        packet: &mut Packet,
+    ) -> Result<usize, HandlingError> {
+        Self::compute_message_size_hack(packet)
+    }
+}
+
 #[derive(Ord, PartialOrd, Eq, PartialEq, Clone)]
 pub struct RequestCacheKey<Endpoint: Ord + Clone> {
     /// Request type as an integer to make it easy to derive Ord.
